@@ -6,6 +6,7 @@ from vlib.logixbench import CONFIGS, LogixScenario
 LEVEL = "exploration"
 SHARDS = {"quick": 8, "thorough": 16}
 TIMEOUT = {"quick": 900, "thorough": 3000}
+MIN_EVALUATIONS = {"quick": 20000, "thorough": 20000}  # fewer oracle evaluations than this means the workload collapsed: inconclusive
 RULE = ("random controller projects (atomic tags of every Logix type, 1-3 dim arrays, BOOL arrays as DWORDs, UDTs nested <=3 with packed BOOLs "
         "on hidden hosts, string types of capacity 1..4100, program-scoped tags, aliases, module tags) x random memory images x controller "
         "configurations {fw 16,17,18,20,21,24,32, Micro800} x {4000-byte, 500-byte connection} x target reply policy {full, random, 1-8 byte "
